@@ -466,6 +466,63 @@ func c15Snapshot(nStable, nUnstable int) {
 			vfAssert(t == pre.terms[i-1], "committed-entry-rewritten")
 		}
 	}
+	// the snapshot says: the cluster's committed entry at index si has term stm. A follower whose commit
+	// index reaches si afterwards must hold that entry there (or the snapshot itself), not an entry of its
+	// own divergent tail
+	if r.raftLog.committed >= si {
+		if t, err := r.raftLog.term(si); err == nil && t != 0 {
+			vfAssert(t == stm, "commit-moved-over-an-entry-the-snapshot-does-not-cover")
+		}
+	}
+}
+
+// ---------------------------------------------------------------------------
+// VF_C15_slice: raftLog.slice(lo, hi, maxSize) - what a leader puts into MsgApp and what is handed out for
+// applying - returns a gap-free run of entries starting at lo, each the entry the log holds at that
+// index, for every mix of entry sizes, every split between storage and the unstable part and every size
+// limit (a limit cuts the run short, it never skips an entry).
+func VF_C15_slice() {
+	st := NewMemoryStorage()
+	nStable := 1 + vfChoice("stable", 2)
+	nUnstable := vfChoice("unstable", 3)
+	mk := func(i int) pb.Entry {
+		e := pb.Entry{Index: uint64(i), Term: uint64(1 + i/2)}
+		if vfChoice("big", 2) == 1 {
+			e.Data = make([]byte, 40)
+			e.Data[0] = byte(i)
+		}
+		return e
+	}
+	var all []pb.Entry
+	for i := 1; i <= nStable; i++ {
+		all = append(all, mk(i))
+	}
+	vfAssert(st.Append(all) == nil, "slice-setup")
+	l := newLogWithSize(st, c15Logger{}, noLimit)
+	var un []pb.Entry
+	for i := nStable + 1; i <= nStable+nUnstable; i++ {
+		un = append(un, mk(i))
+	}
+	l.append(un...)
+	all = append(all, un...)
+	last := nStable + nUnstable
+	lo := 1 + vfChoice("lo", last)
+	hi := lo + 1 + vfChoice("span", last-lo+1)
+	limits := []uint64{0, 10, 50, 60, 100, noLimit}
+	maxSize := limits[vfChoice("limit", len(limits))]
+	got, err := l.slice(uint64(lo), uint64(hi), maxSize)
+	vfAssert(err == nil, "slice-error")
+	vfAssert(len(got) >= 1 && len(got) <= hi-lo, "slice-length")
+	size := 0
+	for i, e := range got {
+		w := all[lo-1+i]
+		vfAssert(e.Index == w.Index && e.Term == w.Term && len(e.Data) == len(w.Data), "slice-has-a-gap-or-a-foreign-entry")
+		size += e.Size()
+	}
+	vfAssert(len(got) == 1 || uint64(size) <= maxSize, "slice-over-the-size-limit")
+	if len(got) < hi-lo {
+		vfAssert(uint64(size+all[lo-1+len(got)].Size()) > maxSize, "slice-cut-short-without-need")
+	}
 }
 
 func VF_C15_snapshot_quick()    { c15Snapshot(2, 0) }
